@@ -1588,13 +1588,17 @@ class ZoneFn:
             if t['k'] != 'switch' or t['discr']['k'] not in ('copy', 'move'):
                 continue
             self._pending_mods = []
+            self._post_variant = '0'
             post = self._post_facts_of_switch(t)
+            # the edge taken on success: discriminant 0 (Ok, Continue) or 1 (Some)
+            tgt0 = [b for v, b in t['targets'] if v == self._post_variant]
+            if not tgt0 and self._post_variant == '1' and [v for v, b in t['targets']] == ['0'] and t.get('otherwise') is not None \
+                    and t['otherwise'] != t['targets'][0][1]:
+                tgt0 = [t['otherwise']]
             if self._pending_mods:
-                tgt0 = [b for v, b in t['targets'] if v == '0']
                 if tgt0:
                     self.edge_mods.setdefault((bi, tgt0[0]), []).extend(self._pending_mods)
             if post:
-                tgt0 = [b for v, b in t['targets'] if v == '0']
                 if tgt0:
                     self.edge_facts.setdefault((bi, tgt0[0]), []).extend(post)
                 continue
@@ -1641,12 +1645,20 @@ class ZoneFn:
         if src.get('p'):
             return None
         d2 = self.single_def(src['l'])
-        if not d2 or d2[0] != 'call' or (d2[2].get('callee') or '') != 'std::ops::Try::branch':
-            return None
-        a0 = d2[2]['args'][0]
-        if a0['k'] not in ('copy', 'move') or a0['pl'].get('p'):
-            return None
-        o = self._origin_call(a0['pl']['l'])
+        self._post_variant = '0'
+        if d2 and d2[0] == 'call' and (d2[2].get('callee') or '') == 'std::ops::Try::branch':
+            a0 = d2[2]['args'][0]
+            if a0['k'] not in ('copy', 'move') or a0['pl'].get('p'):
+                return None
+            o = self._origin_call(a0['pl']['l'])
+        else:
+            # the Result / Option matched on directly (`let Ok(x) = f(..) else { return .. }`, `match f(..) { Some(x) => .., None => .. }`)
+            ty = self.body.local_ty(src['l'])
+            if ty.startswith('std::option::Option<'):
+                self._post_variant = '1'
+            elif not ty.startswith('std::result::Result<'):
+                return None
+            o = self._origin_call(src['l'])
         if not o:
             return None
         call = o[1]
